@@ -151,7 +151,15 @@ fn metamorphic(ctx: &Ctx, a: &Arr3, case: &Value) {
     }
     let tol = 4.0 * rhat_tol(&st0);
     // affine maps
-    for (sc, sh) in [(2.0f32, 0.0f32), (0.5, 0.0), (1024.0, 0.0), (-3.0, 0.0), (1.0, 10.0), (-1.0, -7.0), (0.125, 3.0)] {
+    for (sc, sh) in [(2.0f32, 0.0f32), (0.5, 0.0), (1024.0, 0.0), (-3.0, 0.0), (1.0, 10.0), (-1.0, -7.0), (0.125, 3.0), (2f32.powi(-12), 0.0), (2f32.powi(-20), 0.0), (2f32.powi(-40), 0.0), (2f32.powi(40), 0.0)] {
+        // a transformed copy must stay representable in f32 statistics: squares far from overflow/underflow and
+        // location/scale within f32 conditioning (otherwise the input itself, not the diagnostic, is destroyed)
+        let maxabs = a.iter().flatten().flatten().fold(0.0f64, |m, x| m.max(x.abs() as f64));
+        let (new_max, new_sd) = ((sc.abs() as f64) * maxabs + sh.abs() as f64, (sc.abs() as f64) * st0.w.sqrt());
+        if new_max > 1e12 || new_sd < 1e-12 || new_max / new_sd > 3e3 {
+            ctx.outcome("metamorphic variant skipped (not representable in f32 statistics)", 1);
+            continue;
+        }
         let b: Arr3 = a.iter().map(|ch| ch.iter().map(|r| r.iter().map(|x| sc * x + sh).collect()).collect()).collect();
         ctx.evals(1);
         ctx.transitions(1);
